@@ -254,6 +254,52 @@ func registerJSON(p *Program) {
 		oneWay(yo, xo, " appears only in the output or with another value")
 		return nil
 	})
+	// vJSONMember(b, name) -> (value text, present): member of a top-level object (symbolic presence allowed)
+	h("vJSONMember", func(e *Exec, a []Value) Value {
+		o, ok := e.textValue(a[0].(Slice)).(*JObj)
+		name := a[1].(Str)
+		if !ok {
+			return Tuple{Slice{}, sym.False}
+		}
+		// last matching member wins (as a decoder would see it); names compared symbolically
+		var val JVal
+		present := sym.False
+		for _, m := range o.M {
+			ne := e.jstrEq(m.K, name)
+			if ne.IsFalse() {
+				continue
+			}
+			c := sym.And(guardT(m.G), ne)
+			if c.IsTrue() {
+				val, present = m.V, sym.True
+				continue
+			}
+			if e.Branch(c) {
+				val, present = m.V, sym.True
+			}
+		}
+		if val == nil {
+			return Tuple{Slice{}, sym.False}
+		}
+		return Tuple{absSlice(val), present}
+	})
+	// vJSONKeys(b) -> member names of a top-level object in output order (presence guards resolved by forking)
+	h("vJSONKeys", func(e *Exec, a []Value) Value {
+		o, ok := e.textValue(a[0].(Slice)).(*JObj)
+		if !ok {
+			return Slice{}
+		}
+		var names []Value
+		for _, m := range o.M {
+			if m.G != nil && !e.Branch(m.G) {
+				continue
+			}
+			names = append(names, m.K)
+		}
+		obj := e.newArrObj(types.Typ[types.String], len(names), "json.keys")
+		copy(obj.Elems, names)
+		return Slice{Obj: obj, Len: len(names), Cap: len(names)}
+	})
 	h("vJSONBytesEq", func(e *Exec, a []Value) Value {
 		x, y := e.textValue(a[0].(Slice)), e.textValue(a[1].(Slice))
 		return e.jBytesEq(x, y)
